@@ -378,7 +378,7 @@ fn battery(ctx: &Ctx, c: &Corrupted, stats: &Stats, counting: bool, deep_faults:
 		let mut r = SchedReader::new(bytes, Schedule::Full);
 		let o = rt::slp_opts(skip, hash);
 		let out = rt::guard(|| peppi::io::slippi::read(&mut r, Some(&o)));
-		if r.reads > budget {
+		if r.over_budget || r.reads > budget {
 			return Err(mk(format!("op=read no_progress skip={} hash={}", skip, hash), format!("{} read calls for a {}-byte input", r.reads, bytes.len())));
 		}
 		clean_kind[oi] = out.kind();
@@ -549,6 +549,23 @@ pub fn case(ctx: &Ctx, kind: &str, params: &Value, counting: bool) -> Result<(),
 		"file" => battery(ctx, &Corrupted { bytes: rt::unhex(params["file"].as_str().unwrap_or("")), ops: vec![], model: json!(null) }, &stats, counting, true),
 		_ => battery(ctx, &gen_corrupted(&dna_param(params), &cfg(ctx), &other_file()), &stats, counting, true),
 	}
+}
+
+pub fn fuzz_bytes(ctx: &Ctx, bytes: &[u8]) -> Result<(), Fail> {
+	let stats = Stats { errors: Mutex::new(BTreeSet::new()) };
+	battery(ctx, &Corrupted { bytes: bytes.to_vec(), ops: vec![], model: json!(null) }, &stats, false, false)
+}
+
+pub fn fuzz_dna(ctx: &Ctx, dna: &[u8]) -> Result<(), Fail> {
+	thread_local! {
+		static OTHER: Vec<u8> = other_file();
+	}
+	let stats = Stats { errors: Mutex::new(BTreeSet::new()) };
+	let mut c = GenCfg::quick();
+	c.max_frames = 10;
+	c.max_items = 4;
+	let cor = OTHER.with(|o| gen_corrupted(dna, &c, o));
+	battery(ctx, &cor, &stats, false, false)
 }
 
 pub fn file_case(bytes: &[u8]) -> Result<(), Fail> {
